@@ -52,7 +52,10 @@ def make_cases(seed: int, tier: str, n_cases: int | None = None) -> list[dict]:
         for j in range(n_sched):
             rs = rng(cs, "sched", j)
             dims = rs.sample(runner.SIGMA_DIMS, rs.randint(2, len(runner.SIGMA_DIMS)))
-            hist.append([{"sigma": engine.sample_sigma(rs, sorted(dims)), "options": _combo(idx * n_sched + j + seed, pkg)}])
+            o = _combo(idx * n_sched + j + seed, pkg)
+            if rs.random() < 0.35:
+                o["verbose"] = True  # -v: info messages (paths, ids) are formatted and written to stderr
+            hist.append([{"sigma": engine.sample_sigma(rs, sorted(dims)), "options": o}])
         cases.append({"index": idx, "case_seed": cs, "verif_seed": seed, "pkg": pkg, "options": options, "histories": hist,
                       "params": {"tier": tier, "n_fault": 3 if tier == "quick" else 4, "n_sched": n_sched}, "planned": False})
     return cases
